@@ -485,16 +485,16 @@ Proof.
   destruct (is_known cu) eqn:Kc; cbn [negb] in E.
   - destruct (conv cu TBool) as [cb| |] eqn:Ecb; try (dead E D).
     assert (Pick : forall bv bds (nc : bool) bu bm, ev_ f c anon bv = (bu, bds) -> expr_ok (is_some anon) bv = true ->
-              forall buu, unmark bu = (buu, bm) ->
+              forall buu, unmark bu = (buu, bm) -> forall mk0,
               (if nc then
                  match conv buu rt with
-                 | COk r => (with_marks r (marks_unions [cm; tm; fm]), cds ++ bds)
-                 | CErr ce0 => (with_marks (VUnk rt rf_none) (marks_unions [cm; tm; fm]),
+                 | COk r => (with_marks r mk0, cds ++ bds)
+                 | CErr ce0 => (with_marks (VUnk rt rf_none) mk0,
                                 cds ++ bds ++ [derr S_InconsistentCond [FConv ce0]])
                  | CUnsupported => (dyn_val, cds ++ bds ++ [dunsupported])
                  end
-               else (with_marks buu (marks_unions [cm; tm; fm]), cds ++ bds)) = (v, ds) -> good v = true).
-    { intros bv bds nc bu bm Eb Okb buu Ub E'.
+               else (with_marks buu mk0, cds ++ bds)) = (v, ds) -> good v = true).
+    { intros bv bds nc bu bm Eb Okb buu Ub mk0 E'.
       assert (Gb : diag_ok bds = true -> good buu = true).
       { intros Db. pose proof (IH c anon bv bu bds C A Okb Eb Db) as Gbu.
         apply (good_unmark _ _ _ Gbu Ub). }
@@ -505,11 +505,14 @@ Proof.
       - injection E' as <- <-. rewrite diag_ok_app in D. apply andb_true_iff in D as [_ Db].
         apply good_with_marks. apply (Gb Db). }
     destruct cb as [| |[|]| | | | | | | |]; try (dead E D).
-    + apply (Pick te tds tconv tv tm Et Okt tu Ut E).
-    + apply (Pick fe fds fconv fv fm Ef Okf fu Uf E).
+    + apply (Pick te tds tconv tv tm Et Okt tu Ut _ E).
+    + apply (Pick fe fds fconv fv fm Ef Okf fu Uf _ E).
   - exfalso.
     match type of E with
-    | ?X = _ => change X with (cond_unk rt cds (marks_unions [cm; tm; fm]) tu fu) in E
+    | ?X = _ =>
+        match X with
+        | context [with_marks (VNull rt) ?m] => change X with (cond_unk rt cds m tu fu) in E
+        end
     end.
     pose proof (f_equal snd E) as S. rewrite cond_unk_snd in S. simpl in S. subst ds.
     pose proof (IH c anon ce cv cds C A Okc Ec D) as Gcv.
@@ -877,10 +880,10 @@ Proof.
       set (k := K) in *; set (expanded := x) in *;
       change (match expanded with inl p => k p | inr r => r end = (v, ds)) in E
   end.
-  assert (HK : forall args' ds0,
+  assert (HK : forall args' ds0 emk,
           (diag_ok ds0 = true -> Forall (fun e => expr_ok (is_some anon) e = true) args') ->
-          k (args', ds0) = (v, ds) -> good v = true).
-  { intros args' ds0 Hargs Ek. unfold k in Ek.
+          k (args', ds0, emk) = (v, ds) -> good v = true).
+  { intros args' ds0 emk Hargs Ek. unfold k in Ek.
     destruct (length args' <? length (f_params fnv))%nat; [dead Ek D|].
     match type of Ek with (if ?cnd then _ else _) = _ => destruct cnd end; [dead Ek D|].
     match type of Ek with
@@ -922,10 +925,11 @@ Proof.
     destruct (fn_call fnv argvals) as [rv| | |] eqn:Efc; try (dead Ek D).
     injection Ek as <- <-.
     destruct (Hfold args' 0%nat [] ds0 argvals fds Ef D) as [D0 F0].
+    apply good_with_marks.
     apply (fn_call_good fnv argvals rv Kf); [|exact Efc].
     apply F0; [apply (Hargs D0)|reflexivity|constructor]. }
   unfold expanded in E. destruct expand.
-  2: { apply (HK args []); [intros _; exact Ok|exact E]. }
+  2: { apply (HK args [] []); [intros _; exact Ok|exact E]. }
   destruct (rev args) as [|last init_rev] eqn:Er; [dead E D|].
   assert (Hsplit : args = rev init_rev ++ [last])
     by (rewrite <- (rev_involutive args), Er; reflexivity).
@@ -938,14 +942,16 @@ Proof.
   assert (Fin : (if is_null xv then inr (dyn_val, xds ++ [derr S_InvalidExpand []])
                  else if negb (is_known xv) then inr (with_same_marks dyn_val xv, xds)
                  else let '(xu, xm) := unmark xv in
-                      inl (rev init_rev ++ map (fun kv : val * val => ELit (with_marks (snd kv) xm)) (elements xu), xds))
+                      inl (rev init_rev ++ map (fun kv : val * val => ELit (with_marks (snd kv) xm)) (elements xu), xds,
+                           match elements xu with [] => xm | _ => [] end))
                 = expanded -> good v = true).
   { intros Eexp. fold expanded in E. rewrite <- Eexp in E.
     destruct (is_null xv) eqn:Nx; [dead E D|].
     destruct (negb (is_known xv)) eqn:Kx;
       [exfalso; injection E as _ <-; rewrite (good_is_known _ (Gx D)) in Kx; discriminate|].
     destruct (unmark xv) as [xu xm] eqn:Ux.
-    apply (HK (rev init_rev ++ map (fun kv : val * val => ELit (with_marks (snd kv) xm)) (elements xu)) xds); [|exact E].
+    apply (HK (rev init_rev ++ map (fun kv : val * val => ELit (with_marks (snd kv) xm)) (elements xu)) xds
+              (match elements xu with [] => xm | _ => [] end)); [|exact E].
     intros Dx. specialize (Gx Dx). destruct (good_unmark _ _ _ Gx Ux) as [Gxu _].
     apply Forall_app. split; [exact Okinit|].
     apply Forall_forall. intros e He. apply in_map_iff in He as [[kk vv] [<- Hkv]].
